@@ -63,11 +63,12 @@ def run(R, ctx):
         lines += ttlgen.batch(rng, 60, only=ttlgen.MULTI_PROBES, plain=True, attach_ms=520)   # set-up done before the boundary; timers fire from +0.52 s on
     for _ in range(1 if R.tier == "quick" else 8):
         lines += ttlgen.restore_across_deadline(rng)
+        lines += ttlgen.interplay(rng)
     execsuite.run_exec_suite(R, ctx, name="ttl-batches", gens=families.all_gens(), nprog=(250, 3000), corpus="exec_c06",
                              what="TTL batches on the real clock: every way of attaching a deadline (SET EX/PX/EXAT, SETEX, EXPIRE with each option), "
                                   "modifiers (PERSIST, SET with/without KEEPTTL, RENAME, DEL, APPEND, MSET, refused NX/XX), probes by every reading and "
                                   "writing string/key command before the deadline, in the lazy-expiry-only window and after the timers fired; plus "
-                                  "a keyspace snapshot written and loaded into a fresh database in the lazy-expiry window (restore across a deadline: every value type); "
+                                  "TTL interplay (keys due in 1 s are extended / persisted / deleted / overwritten / renamed: the keys due in 2 s still expire on time); a keyspace snapshot written and loaded into a fresh database in the lazy-expiry window (restore across a deadline: every value type); "
                                   "ordinary programs of every command family with long, zero and negative TTLs (a deadline left behind by a deleted key, or inherited by a re-created one, shows in the dump)",
                              extra_lines=lines + deadline_follows_key(rng, 400 if R.tier == "quick" else 6000))
     R.extra["ttl_batches"] = dict(batches=nb, scenarios_per_batch=n, attach_kinds=ttlgen.ATTACH, modifiers=ttlgen.MODIFY, probes=ttlgen.PROBES)
